@@ -335,4 +335,43 @@ pub fn run<C: NatCtx>(v: &mut Env<C>) {
             }
         }
     }
+    count_wrap_family(v, &sk);
+}
+
+/// a proof failing EVERY one of its N + 5 equations (an honest proof replayed against another label), for N such
+/// that the number of failing equations is exactly 256, 512 (thorough: 1024, 65536): a verdict computed from a
+/// COUNT of failures must not wrap, and the verifier must not panic.  Implementation only, 62-bit group (an
+/// equation holding by chance has probability 2^-61).
+pub fn count_wrap_family<C: NatCtx>(v: &mut Env<C>, sk: &BigUint) {
+    let small = v.small;
+    let quick = v.h.tier == Tier::Quick;
+    let p = v.p.clone();
+    // ---- a proof failing EVERY one of its N + 5 equations (an honest proof replayed against another label), for N
+    // such that the number of failing equations is exactly 256, 512 (thorough: 65536): a verdict computed from a
+    // COUNT of failures must not wrap.  Implementation only, 62-bit group (an equation holding by chance has
+    // probability 2^-61).
+    if !small && p.bits() < 100 {
+        let ctx = v.ctx.clone();
+        let tok = v.tok.clone();
+        for nn in if quick { vec![251usize, 507] } else { vec![251, 507, 1019, 65531] } {
+            let s = setup(v, sk, nn, b"count");
+            let sh = Shuffler::new(&s.pk, &s.gens, &ctx);
+            strand::verif_hooks::load_exp_tape(vec![]);
+            use strand::context::Ctx;
+            let es: Vec<Ciphertext<C>> = (0..nn).map(|_| s.pk.encrypt(&ctx.rnd())).collect();
+            let (eps, rs, perm) = sh.gen_shuffle(&es);
+            let Ok(pf) = sh.gen_proof(&es, &eps, &rs, &perm, b"label-a") else {
+                v.h.check(false, || format!("gen_proof failed for N = {} on {}", nn, tok));
+                continue;
+            };
+            let honest = sh.check_proof(&pf, &es, &eps, b"label-a").unwrap_or(false);
+            v.h.check(honest, || format!("honest proof for N = {} rejected on {}", nn, tok));
+            let out = match std::panic::catch_unwind(std::panic::AssertUnwindSafe(|| sh.check_proof(&pf, &es, &eps, b"label-b"))) {
+                Ok(Ok(r)) => Out::Ok(Val::Bool(r)),
+                Ok(Err(_)) => Out::Err,
+                Err(_) => Out::Panic,
+            };
+            expect_reject(v, &out, true, || format!("an honest proof for N = {} replayed against another label (all {} equations fail) on {}", nn, nn + 5, tok));
+        }
+    }
 }
